@@ -40,8 +40,17 @@ def mkblock(ns, vs, scaled):
                              "ps": Obj(ns + "::PositionStats", {"scale": Poly.var("S") if scaled else Fraction(1),
                                                                 "AB": Fraction(0), "AD": Fraction(0), "A2": Fraction(0)}),
                              "deleted": False, "timeStamp": 0, "in": None, "out": None, "blocks": None})
+    from ..microai.poly import r_add, r_mul, r_div
+    S = b.f["ps"].f["scale"]
+    AB = AD = A2 = Fraction(0)
     for v in vs:
         v.f["block"] = b
+        a = r_div(S, v.f["scale"])
+        bi = r_div(v.f["offset"], v.f["scale"])
+        AB = r_add(AB, r_mul(r_mul(v.f["weight"], a), bi))
+        AD = r_add(AD, r_mul(r_mul(v.f["weight"], a), v.f["desiredPosition"]))
+        A2 = r_add(A2, r_mul(r_mul(v.f["weight"], a), a))
+    b.f["ps"].f["AB"], b.f["ps"].f["AD"], b.f["ps"].f["A2"] = AB, AD, A2     # consistent accumulated statistics
     return b
 
 
